@@ -134,6 +134,12 @@ package rapidcore
 //@   ensures [C10: a-caller-gives-back-no-reservation-it-does-not-hold] delta(ServerReleased) == 0
 //@   ensures [failure-is-handed-on-without-a-second-reset] delta(TimeoutFired) == 0 && delta(ReleaseFailedSeen) == 1 ==> r0 != nil && delta(ServerReset) == 0 && delta(ServerReleased) == 0
 
+// C10: the reservation is given back exactly when the completion was received: once, by the one who awaited it
+//@ func (*Server).AwaitRelease
+//@   requires s != nil
+//@   ensures [completion-gives-the-reservation-back-once] (r1 == nil ==> r0 != nil && delta(ServerReleased) == 1) && (r1 != nil ==> r0 == nil && delta(ServerReleased) == 0)
+//@   ensures [failure-kinds] r1 == nil || r1 == ErrInitDoneFailed || r1 == ErrInvokeDoneFailed || r1 == ErrReleaseReservationDone
+
 // the timer goroutine sends nothing but the timeout error, at most once (what Invoke returns after a timeout is what it received)
 // what travels on the timer channel is the timeout error and nothing else: proved where it is sent, relied on where it is received
 //@ chaninv local:rapidcore.(*Server).Invoke.timeoutChan: v == ErrInvokeTimeout
@@ -218,7 +224,10 @@ package rapidcore
 //@ event RapidClear = call interop.(RapidContext).Clear
 //@ func (*Server).Reset
 //@   requires s != nil
-//@   ensures [returns-after-the-done-of-its-worker] delta(ResetWorkerStarted) == 1 && delta(ResetDoneSeen) == 1 && delta(ServerReleased) == 1 && first(ResetWorkerStarted) < first(ResetDoneSeen) && first(ResetDoneSeen) < first(ServerReleased)
+//@   ensures [returns-after-the-done-of-its-worker] delta(ResetWorkerStarted) == 1 && delta(ResetDoneSeen) == 1 && first(ResetWorkerStarted) < first(ResetDoneSeen)
+// C10: the worker clears the server (Clear gives the reservation back) before it reports done; whatever is reserved when the
+// done is seen was reserved afterwards, by the next caller, and is not the reset's to give back
+//@   ensures [C10: the-reset-gives-back-no-reservation-after-its-worker-has-cleared-the-server] delta(ServerReleased) == 0
 //@ func (*Server).Reset$1
 //@   requires s != nil && reset != nil
 //@   ensures [sandbox-reset-then-clear-then-one-done] delta(SandboxReset) == 1 && delta(ServerCleared) == 1 && delta(ResetDoneSent) == 1 && first(SandboxReset) < first(ServerCleared) && first(ServerCleared) < first(ResetDoneSent)
